@@ -83,10 +83,12 @@ def client_ids(cfg):
   return [b'c%02d' % i for i in range(len(cfg['sizes']))]
 
 
-def datasets(cfg):
+def datasets(cfg, rnd=0):
+  """Client datasets of round `rnd` (round 2 may see a different population: cfg['sizes2'])."""
   cds = _imports()[3]
-  off = offsets(cfg['sizes'])
-  return [cds.ClientDataset({'idx': np.arange(o, o + n, dtype=np.int32)}) for o, n in zip(off, cfg['sizes'])]
+  sizes = cfg['sizes2'] if rnd == 1 and cfg.get('sizes2') else cfg['sizes']
+  off = offsets(sizes)
+  return [cds.ClientDataset({'idx': np.arange(o, o + n, dtype=np.int32)}) for o, n in zip(off, sizes)]
 
 
 def code_fn(cfg):
@@ -118,10 +120,10 @@ def code_fn(cfg):
 def _rounds(cfg, alg, w, b, keys):
   if True:
     state = alg.init({'w': w, 'b': b})
-    ds = datasets(cfg)
     ids = client_ids(cfg)
     diags = []
     for r in range(cfg.get('rounds', 1)):
+      ds = datasets(cfg, r)
       order = cfg.get('order') or list(range(len(ids)))
       if r == 1:
         order = list(reversed(order))
@@ -137,8 +139,6 @@ def ref_fn(cfg):
   """The definition: sequential local training per client, example-weighted mean of deltas, server step."""
   fedjax, fed_avg, fec, cds, optimizers = _imports()
   hp = hparams_of(cfg)
-  batch_lists = [[np.asarray(bt['idx']) for bt in d.shuffle_repeat_batch(hp)] for d in datasets(cfg)]
-  sizes = cfg['sizes']
   ids = client_ids(cfg)
 
   def fn(w, b, X, y, keys):
@@ -148,6 +148,8 @@ def ref_fn(cfg):
     sstate = sopt.init(params)
     diags = []
     for r in range(cfg.get('rounds', 1)):
+      batch_lists = [[np.asarray(bt['idx']) for bt in d.shuffle_repeat_batch(hp)] if len(d) else [] for d in datasets(cfg, r)]
+      sizes = cfg['sizes2'] if r == 1 and cfg.get('sizes2') else cfg['sizes']
       deltas = []
       for i in range(len(sizes)):
         p, s, k = params, copt.init(params), keys[r, i]
@@ -265,6 +267,8 @@ def configs(tier):
   cfgs.append(dict(base, sizes=[3, 1, 2], backend='pmap', ndev=2, grad='uf', copt='uf', sopt='uf'))
   cfgs.append(dict(base, sizes=[3, 2], copt='momentum', sopt='momentum', rounds=2))
   cfgs.append(dict(base, sizes=[3, 2], grad='linrng', batch=1))
+  cfgs.append(dict(base, sizes=[2, 1], sizes2=[0, 0], sopt='momentum', rounds=2))      # a round without any example after a round with data
+  cfgs.append(dict(base, sizes=[1, 2, 3], backend='pmap', ndev=2, order=[1, 0, 2]))
   cfgs.append(dict(base, sizes=[2, 0, 3], grad='uf', copt='uf', sopt='uf'))
   cfgs.append(dict(base, sizes=[3, 2], grad='uf', copt='uf', sopt='uf', rounds=2))
   cfgs.append(dict(base, sizes=[0, 0], grad='uf', copt='uf', sopt='sgd'))
